@@ -132,6 +132,9 @@ func genCase(rng *rand.Rand, variant string, progs [][]call, style int) hx.Case 
 	}
 	if len(d.live()) == 0 {
 		d.do("gs probe")
+		if rng.Intn(25) == 0 {
+			d.do("gs deadline")
+		}
 	}
 	d.g.s.Kill()
 	return hx.Case{Domain: true, Nontrivial: hasWait && hasAdd && len(progs) >= 2, Lines: d.lines,
